@@ -85,6 +85,8 @@ func checkC08(c *Check) {
 	ruleContentHashDiscipline(c, p, "R08.11")
 	ruleContentHashFeed(c, p, "R08.12")
 	ruleReadFromRelease(c, p, "R08.18")
+	ruleOrderingDrains(c, p, "R08.19")
+	c.RuleDoc["R08.19"] = "the ordering goroutine returns only on a closed queue or on the sentinel (it keeps draining after a failed write)"
 	c.RuleDoc["R08.18"] = "ReadFrom does not release a buffer it has handed to the pipeline (finite-state exploration of its loop)"
 	ruleCollectorStopsAfterFailure(c, p, "R08.17")
 	c.RuleDoc["R08.17"] = "the collector of the concurrent decoder forwards nothing after a failed block (finite-state exploration of its loop)"
